@@ -1,17 +1,9 @@
 ------------------------------ MODULE Par2Scan ------------------------------
 (***************************************************************************)
-(* Slices of protected files and where they occur in a directory.          *)
-(*                                                                         *)
-(* Files are sequences of small integers (bytes).  MD5/CRC32 are idealised *)
-(* as injective: "the checksum pair of a window matches slice p" is        *)
-(* "the zero-padded window equals the content of slice p".                 *)
-(*                                                                         *)
-(* TRUTH LAYER:  Window, Occurs, Occurring (upper bound of what any scan   *)
-(*   may credit), Survivors (lower bound of what every correct scan must   *)
-(*   credit: an occurrence not overlapped by an earlier occurrence of any  *)
-(*   protected slice, or any slice of a file that is intact).              *)
-(* ALGORITHM LAYER: gopar's greedy scan (+1 on a miss, +S on a hit, zero   *)
-(*   padding at end of file, every location with that content credited).   *)
+(* ScanP applied to one instance given as constants: slice size S, names   *)
+(* in recovery-set (file id) order, protected contents Prot.  See ScanP    *)
+(* for the truth layer (Occurring, Survivors) and the algorithm layer      *)
+(* (gopar's greedy scan, Found).                                           *)
 (***************************************************************************)
 EXTENDS Integers, Sequences, FiniteSets
 
@@ -19,62 +11,25 @@ CONSTANTS S,        \* slice size in bytes
           Names,    \* sequence of protected file names in recovery-set (file id) order
           Prot      \* [name -> original content]
 
-Absent == << -1 >>                      \* disk value of a file that does not exist (bytes are >= 0)
+SP == INSTANCE ScanP
 
-NameSet == {Names[i] : i \in 1 .. Len(Names)}
-MinI(a, b) == IF a <= b THEN a ELSE b
-
-Pad(w) == w \o [i \in 1 .. (S - Len(w)) |-> 0]
-\* the window of d at 0-based offset j (j < Len(d)), zero-padded at end of file only
-Window(d, j) == Pad(SubSeq(d, j + 1, MinI(j + S, Len(d))))
-
-NSlices(d) == (Len(d) + S - 1) \div S
-\* a slice position is <<name, k>>, k from 0
-Pos == UNION {{<< f, k >> : k \in 0 .. (NSlices(Prot[f]) - 1)} : f \in NameSet}
-Content(p) == Window(Prot[p[1]], p[2] * S)
-Contents == {Content(p) : p \in Pos}
+Absent == SP!Absent
+NameSet == SP!NameSet(Names)
+Window(d, j) == SP!Window(S, d, j)
+NSlices(d) == SP!NSlices(S, d)
+Pos == SP!Pos(S, Names, Prot)
+Content(p) == SP!Content(S, Prot, p)
+Contents == SP!Contents(S, Names, Prot)
 NTotal == Cardinality(Pos)
+GIndex(p) == SP!GIndex(S, Names, Prot, p)
+Present(disk) == SP!Present(Names, disk)
 
-\* global index (from 0) of a slice position: files in Names order, then offset
-RECURSIVE Before(_)
-Before(i) == IF i = 1 THEN 0 ELSE Before(i - 1) + NSlices(Prot[Names[i - 1]])
-IndexOfName(f) == CHOOSE i \in 1 .. Len(Names) : Names[i] = f
-GIndex(p) == Before(IndexOfName(p[1])) + p[2]
-
-Present(disk) == {f \in NameSet : disk[f] # Absent}
-
-(************************ TRUTH LAYER **************************************)
-\* offsets of d at which the (padded) window is the content of some protected slice
-Hits(d) == {j \in 0 .. (Len(d) - 1) : Window(d, j) \in Contents}
-OccursAt(p, d, j) == j \in 0 .. (Len(d) - 1) /\ Window(d, j) = Content(p)
-\* no occurrence of any protected slice starts inside the S-1 bytes before j
-Clean(d, j) == \A j2 \in Hits(d) : ~(j - S < j2 /\ j2 < j)
-
-Occurring(disk) ==
-  {p \in Pos : \E f \in Present(disk) : \E j \in 0 .. (Len(disk[f]) - 1) : OccursAt(p, disk[f], j)}
-
+Occurring(disk) == SP!Occurring(S, Names, Prot, disk)
+Survivors(disk) == SP!Survivors(S, Names, Prot, disk)
 Intact(disk, f) == disk[f] = Prot[f]
-
-Survivors(disk) ==
-  {p \in Pos : \/ Intact(disk, p[1])
-               \/ \E f \in Present(disk) : \E j \in Hits(disk[f]) :
-                     OccursAt(p, disk[f], j) /\ Clean(disk[f], j)}
-
-(************************ ALGORITHM LAYER **********************************)
-RECURSIVE ScanR(_, _, _)
-ScanR(d, j, acc) ==
-  IF j >= Len(d) THEN acc
-  ELSE IF Window(d, j) \in Contents THEN ScanR(d, j + S, acc \cup {j})
-       ELSE ScanR(d, j + 1, acc)
-ScanHits(d) == ScanR(d, 0, {})
-
-\* slice positions credited by the greedy scan over all present protected files
-Found(disk) ==
-  {p \in Pos : \E f \in Present(disk) : \E j \in ScanHits(disk[f]) : OccursAt(p, disk[f], j)}
-
+ScanHits(d) == SP!ScanHits(S, Contents, d)
+Found(disk) == SP!Found(S, Names, Prot, disk)
 \* a file is "ok" for the decoder: present, same bytes (hashes + length + every slice in place)
 FileOK(disk, f) == disk[f] # Absent /\ disk[f] = Prot[f]
-
-(************************ the theorem TLC checks on small scopes ***********)
-Bounds(disk) == Survivors(disk) \subseteq Found(disk) /\ Found(disk) \subseteq Occurring(disk)
+Bounds(disk) == SP!Bounds(S, Names, Prot, disk)
 =============================================================================
